@@ -94,14 +94,17 @@ impl S3 for FileSystem {
         let file_metadata = try_!(fs::metadata(&src_path).await);
         let last_modified = Timestamp::from(try_!(file_metadata.modified()));
 
-        let _ = try_!(fs::copy(&src_path, &dst_path).await);
+        // copying a file onto itself would truncate it: an object copied onto itself stays as it is
+        if src_path != dst_path {
+            let _ = try_!(fs::copy(&src_path, &dst_path).await);
 
-        debug!(from = %src_path.display(), to = %dst_path.display(), "copy file");
+            debug!(from = %src_path.display(), to = %dst_path.display(), "copy file");
 
-        let src_metadata_path = self.get_metadata_path(bucket, key, None)?;
-        if src_metadata_path.exists() {
-            let dst_metadata_path = self.get_metadata_path(&input.bucket, &input.key, None)?;
-            let _ = try_!(fs::copy(src_metadata_path, dst_metadata_path).await);
+            let src_metadata_path = self.get_metadata_path(bucket, key, None)?;
+            if src_metadata_path.exists() {
+                let dst_metadata_path = self.get_metadata_path(&input.bucket, &input.key, None)?;
+                let _ = try_!(fs::copy(src_metadata_path, dst_metadata_path).await);
+            }
         }
 
         let md5_sum = self.get_md5_sum(bucket, key).await?;
